@@ -37,7 +37,7 @@ def gen_cases(tier, seed):
         r = max(2, reps // e.slow)
         for i in range(r):
             s = stable_hash(seed, "C05", name, i)
-            cases.append({"entry": name, "seed": s, "wrap": WRAPS[i % len(WRAPS)], "prefit": bool((i // 2) % 2),
+            cases.append({"entry": name, "seed": s, "wrap": WRAPS[(i + s) % len(WRAPS)] if i else "none", "prefit": bool((i // 2) % 2),
                           "weights": bool((s >> 3) % 2), "nq": 1 + (s >> 5) % 3,
                           "nmax": 12 if tier == "quick" else 24})
     r = {"quick": 12, "thorough": 80}[tier]
